@@ -19,7 +19,7 @@
      comp   : ';'-separated   <inhex>:<outhex>     what the real zstd encoder does
      hash   : ';'-separated   <datahex>:<idhex>    the digest in use
    answer : <results> <objs> <hist> <acts>   or   NEED dec|comp|hash <hex>
-     results: '|'-separated  ok:<datahex|!>  missing  invalid  other  (for g)
+     results: '|'-separated  ok:<datahex|!>  missing  invalid  other  eof  (for g; eof = the error is io.EOF itself)
                              w:<datahex> / fail                       (for consumers)
 *)
 open Conv
@@ -119,6 +119,7 @@ let res_str zd (r : chunk res) : string =
   | Err EMissing -> "missing"
   | Err EInvalid -> "invalid"
   | Err EOther -> "other"
+  | Err EEof -> "eof"
 
 let cons_str r : string =
   match r with Some b -> "w:" ^ hex_of_bytes b | None -> "fail"
